@@ -320,33 +320,103 @@ theorem inv_claim (s : State) (w i n h : Nat) (k : Kind) (hI : Inv s) : Inv (cla
   repeat' split
   all_goals first | exact hI | exact inv_attest _ _ _ _ _ hI
 
-theorem inv_exec (s : State) (n : Nat) (f : Bool) (hI : Inv s) : Inv (execStep s n f).1 := by
+/-! ## deferred execution with re-entrancy -/
+
+/-- the exec step only changes the parked claims and the execution log -/
+theorem exec_frame (s : State) (n : Nat) (o : Outcome) (c : Calls) :
+    ∃ P L, (execStep s n o c).1 = { s with pending := P, executedLog := L } := by
   unfold execStep
-  repeat' split
+  split
+  · exact ⟨s.pending, s.executedLog, rfl⟩
+  · split
+    · exact ⟨s.pending, s.executedLog, rfl⟩
+    · exact ⟨_, _, rfl⟩
+
+/-- the part of `Inv` that talks about the parked claims and the execution log, relative to a last observed nonce -/
+structure InvP (lo : Nat) (p : Px) : Prop where
+  pendR : ∀ n ∈ p.pending, 1 ≤ n ∧ n ≤ lo
+  execR : ∀ n ∈ p.log, 1 ≤ n ∧ n ≤ lo
+  execN : p.log.Nodup
+  pendX : ∀ n ∈ p.pending, n ∉ p.log
+
+theorem mem_delPending {l : List Nat} {n m : Nat} (h : m ∈ delPending l n) : m ∈ l := by
+  unfold delPending at h
+  split at h
+  · exact (List.mem_filter.mp h).1
+  · exact h
+
+theorem not_mem_delPending (hd : execDeletesPending = true) (l : List Nat) (n : Nat) : n ∉ delPending l n := by
+  simp [delPending, hd]
+
+/-- entering a call for a parked nonce with the entry deleted first: the handler's effects are logged once, the nonce is
+no longer parked -/
+theorem invP_enter (hd : execDeletesPending = true) {lo : Nat} {p : Px} {n : Nat} (hI : InvP lo p) (hp : n ∈ p.pending) :
+    InvP lo { pending := delPending p.pending n, log := p.log ++ [n] } := by
+  refine ⟨?_, ?_, ?_, ?_⟩
+  · intro m hm
+    exact hI.pendR m (mem_delPending hm)
+  · intro m hm
+    rcases List.mem_append.mp hm with h | h
+    · exact hI.execR m h
+    · simp at h; subst h; exact hI.pendR m hp
+  · simp only []
+    rw [List.nodup_append]
+    refine ⟨hI.execN, by simp, ?_⟩
+    intro a ha b hb
+    simp at hb; subst hb
+    intro hab; subst hab
+    exact hI.pendX a hp ha
+  · intro m hm hc
+    rcases List.mem_append.mp hc with h | h
+    · exact hI.pendX m (mem_delPending hm) h
+    · simp at h; subst h; exact not_mem_delPending hd _ _ hm
+
+/-- in the delete-before-handler order every forest of (re-entrant, nested, failing, refunded) `ExecuteClaim` calls keeps
+the invariant: the log stays duplicate-free and disjoint from the parked claims -/
+theorem invP_execCalls (hd : execDeletesPending = true) (hc : execChecksPending = true) (lo : Nat) (c : Calls) (p : Px)
+    (hI : InvP lo p) : InvP lo (execCallsWith true p c) := by
+  induction c generalizing p with
+  | nil => exact hI
+  | call n o inner next ihI ihN =>
+    unfold execCallsWith
+    apply ihN
+    simp only [hc, Bool.true_and, if_true]
+    split
+    · exact hI
+    · rename_i hp
+      have hp' : n ∈ p.pending := by simpa using hp
+      cases o with
+      | fail => exact hI
+      | refund => exact invP_enter hd hI hp'
+      | ok => exact ihI _ (invP_enter hd hI hp')
+
+theorem inv_exec (s : State) (n : Nat) (o : Outcome) (c : Calls) (hI : Inv s) : Inv (execStep s n o c).1 := by
+  unfold execStep
+  split
   · exact hI
-  · exact hI
-  · rename_i hp hf
-    have hp' : n ∈ s.pending := by simpa using hp
-    refine ⟨hI.logC, hI.obsIn, ?_, ?_, ?_, ?_⟩
-    · intro m hm
-      exact hI.pendR m (List.mem_filter.mp hm).1
-    · intro m hm
-      rcases List.mem_append.mp hm with h | h
-      · exact hI.execR m h
-      · simp at h; subst h; exact hI.pendR m hp'
-    · simp only []
-      rw [List.nodup_append]
-      refine ⟨hI.execN, by simp, ?_⟩
-      intro a ha b hb
-      simp at hb; subst hb
-      intro hab; subst hab
-      exact hI.pendX a hp' ha
-    · intro m hm
-      have hm' := List.mem_filter.mp hm
-      intro hc
-      rcases List.mem_append.mp hc with h | h
-      · exact hI.pendX m hm'.1 h
-      · simp at h; subst h; simp at hm'
+  · split
+    · exact hI
+    · have hdf : execDeletesBeforeHandler = true := by decide
+      have hP : InvP s.lastObserved { pending := s.pending, log := s.executedLog } := ⟨hI.pendR, hI.execR, hI.execN, hI.pendX⟩
+      have := invP_execCalls (by decide) (by decide) s.lastObserved (.call n o c .nil) _ hP
+      simp only [execCalls, hdf]
+      exact ⟨hI.logC, hI.obsIn, this.pendR, this.execR, this.execN, this.pendX⟩
+
+/-- calls only consume parked claims (delete-before-handler order): nothing becomes parked by executing -/
+theorem execCalls_pending_subset (c : Calls) (p : Px) : ∀ m ∈ (execCallsWith true p c).pending, m ∈ p.pending := by
+  induction c generalizing p with
+  | nil => intro m hm; exact hm
+  | call n o inner next ihI ihN =>
+    intro m hm
+    unfold execCallsWith at hm
+    have := ihN _ m hm
+    simp only [if_true] at this
+    split at this
+    · exact this
+    · cases o with
+      | fail => exact this
+      | refund => exact mem_delPending this
+      | ok => exact mem_delPending (ihI _ m this)
 
 theorem inv_step (s : State) (op : Op) (hI : Inv s) : Inv (step s op).1 := by
   cases op with
@@ -357,7 +427,7 @@ theorem inv_step (s : State) (op : Op) (hI : Inv s) : Inv (step s op).1 := by
   | unbond o u bal d => exact inv_of_core (unbond_core s o u bal d) hI
   | gov l d => exact inv_of_core (gov_core s l d).1 hI
   | endBlock l r => exact inv_of_core (endBlock_core s l r).1 hI
-  | exec n f => exact inv_exec s n f hI
+  | exec n o c => exact inv_exec s n o c hI
 
 theorem inv_run (s : State) (ops : List Op) (hI : Inv s) : Inv (run s ops) := by
   induction ops generalizing s with
@@ -437,11 +507,10 @@ theorem totalOk_step (s : State) (op : Op) (hT : TotalOk s) : TotalOk (step s op
     split
     · simp [refresh]
     · exact Nat.le_trans (foldl_slashOne_le l s.oracles) hT
-  | exec n f =>
+  | exec n o c =>
     simp only [step]
-    unfold execStep
-    repeat' split
-    all_goals exact hT
+    obtain ⟨P, L, h⟩ := exec_frame s n o c
+    rw [h]; exact hT
 
 theorem totalOk_run (s : State) (ops : List Op) (hT : TotalOk s) : TotalOk (run s ops) := by
   induction ops generalizing s with
@@ -686,10 +755,10 @@ theorem binv_step (s : State) (op : Op) (hB : BInv s) : BInv (step s op).1 := by
     simp only [step]; unfold endBlockStep
     split
     all_goals exact binv_of_BP (s := s) rfl (BP_foldl_slashOne l s.oracles) hB
-  | exec n f =>
-    simp only [step]; unfold execStep
-    repeat' split
-    all_goals exact hB
+  | exec n o c =>
+    simp only [step]
+    obtain ⟨P, L, h⟩ := exec_frame s n o c
+    rw [h]; exact hB
 
 theorem binv_run (s : State) (ops : List Op) (hB : BInv s) : BInv (run s ops) := by
   induction ops generalizing s with
@@ -1031,11 +1100,10 @@ theorem vinv_step (s : State) (op : Op) (hop : opOk s op = true) (hV : VInv s) :
     unfold endBlockStep
     split
     all_goals exact NoNew_foldl_slashOne l s.oracles
-  | exec n f =>
+  | exec n o c =>
     simp only [step]
-    unfold execStep
-    repeat' split
-    all_goals exact ⟨hV.v1, hV.v2, hV.r1⟩
+    obtain ⟨P, L, h⟩ := exec_frame s n o c
+    rw [h]; exact ⟨hV.v1, hV.v2, hV.r1⟩
 
 theorem vinv_init (p : Params) : VInv (init p) := by
   refine ⟨?_, ⟨?_, ?_⟩, ?_⟩ <;> (intro a ha; simp [init] at ha)
@@ -1069,10 +1137,10 @@ theorem retired_step (s : State) (op : Op) (hk : unbondDeletesLastNonce = false)
     all_goals simp_all
   | gov l d => simp only [step]; rw [gov_retired]; exact h
   | endBlock l r => simp only [step]; rw [endBlock_retired]; exact h
-  | exec n f =>
-    simp only [step]; unfold execStep
-    repeat' split
-    all_goals exact h
+  | exec n o c =>
+    simp only [step]
+    obtain ⟨P, L, h'⟩ := exec_frame s n o c
+    rw [h']; exact h
 
 theorem noRebond_of_kept (hk : unbondDeletesLastNonce = false) (s : State) (ops : List Op) (h : s.retired = []) :
     noRebond s ops = true := by
